@@ -32,6 +32,13 @@ func ShutDown(
 		return err
 	}
 
+	var errCode = "shutdown_" + p.Type().String() + "_failed"
+	if err := smartcontractinterface.AuthorizeWithOwner(errCode, func() bool {
+		return ownerId == clientId || clientId == sp.GetSettings().DelegateWallet
+	}); err != nil {
+		return err
+	}
+
 	if p.IsKilled() || p.IsShutDown() {
 		if refreshProvider != nil {
 			err = refreshProvider(req)
@@ -51,13 +58,6 @@ func ShutDown(
 
 	// the stake pool belongs to the provider that is shut down, not to the caller (owner or delegate wallet)
 	if err = sp.Save(p.Type(), p.Id(), balances); err != nil {
-		return err
-	}
-
-	var errCode = "shutdown_" + p.Type().String() + "_failed"
-	if err := smartcontractinterface.AuthorizeWithOwner(errCode, func() bool {
-		return ownerId == clientId || clientId == sp.GetSettings().DelegateWallet
-	}); err != nil {
 		return err
 	}
 
